@@ -311,12 +311,78 @@ static std::string run_case(const std::string& line) {
   return out;
 }
 
-int main() {
+// ---- --params: constants / tables / hold-off times of the COMPILED code (behavioural probes where the
+//      value is not a named constant), one "name value..." line each; props/c11.py writes them to
+//      coq/C11/ParamsProbe.v (params_ok_now) and gives the hold-offs to the model.
+static World* probe_world() {
+  auto w = new World();
+  w->now = 31536000000000LL;
+  g_main->set_cached_time(std::chrono::microseconds(w->now));
+  w->rm = new torrent::ResourceManager();
+  w->tl_up = new torrent::ThrottleList();
+  w->tl_down = new torrent::ThrottleList();
+  w->rm->push_group("probe");
+  auto d = new torrent::DownloadMain();
+  d->file_list()->initialize(16 * 16384, 16384);
+  d->set_upload_throttle(w->tl_up);
+  d->set_download_throttle(w->tl_down);
+  w->tors.push_back(d);
+  w->rm->insert(d, 1);
+  w->conns.push_back(new_conn(*w, 0));
+  return w;
+}
+// smallest x (microseconds since the last choke-state change) at which the connection is unchoked
+// immediately; the hold-off is x - 1.  unsnub: probe set_not_snubbed instead of set_queued.
+static long long probe_holdoff(bool unsnub) {
+  World* w = probe_world();
+  auto pc = w->conns[0];
+  auto q = queue_of_conn(pc, true);
+  auto unchoked_at = [&](long long x) {
+    if (unsnub) { q->set_snubbed(pc, &pc->m_up_choke); q->set_queued(pc, &pc->m_up_choke); }
+    pc->m_up_choke.set_time_last_choke(std::chrono::microseconds(w->now - x));
+    if (unsnub) q->set_not_snubbed(pc, &pc->m_up_choke); else q->set_queued(pc, &pc->m_up_choke);
+    bool u = pc->m_up_choke.unchoked();
+    q->set_not_queued(pc, &pc->m_up_choke);
+    return u;
+  };
+  long long hi = 1LL << 42;
+  if (!unchoked_at(hi)) return -2;     // never within ~50 days
+  if (unchoked_at(0)) return -1;       // negative hold-off
+  long long lo = 0;                    // unchoked_at(lo) false, unchoked_at(hi) true
+  while (hi - lo > 1) { long long mid = lo + (hi - lo) / 2; if (unchoked_at(mid)) hi = mid; else lo = mid; }
+  pc->real_close();
+  return hi - 1;
+}
+static void print_params() {
+  std::cout << "heur_rows " << (int)torrent::HEURISTICS_MAX_SIZE << "\n";
+  std::cout << "order_base " << torrent::choke_queue::order_base << "\n";
+  std::cout << "order_max_size " << torrent::choke_queue::order_max_size << "\n";
+  for (int i = 0; i < (int)torrent::HEURISTICS_MAX_SIZE; i++) {
+    std::cout << "choke_w" << i;
+    for (auto x : torrent::choke_queue::m_heuristics_list[i].choke_weight) std::cout << " " << x;
+    std::cout << "\nunchoke_w" << i;
+    for (auto x : torrent::choke_queue::m_heuristics_list[i].unchoke_weight) std::cout << " " << x;
+    std::cout << "\n";
+  }
+  { // largest value ResourceManager::set_max_upload_unchoked accepts
+    torrent::ResourceManager rm;
+    auto ok = [&](unsigned m) { try { rm.set_max_upload_unchoked(m); return true; } catch (torrent::input_error&) { return false; } };
+    unsigned lo = 0, hi = 0x7fffffffu;
+    if (ok(hi)) lo = hi; else while (hi - lo > 1) { unsigned mid = lo + (hi - lo) / 2; if (ok(mid)) lo = mid; else hi = mid; }
+    rm.set_max_upload_unchoked(0);
+    std::cout << "global_max_cap " << lo << "\n";
+  }
+  std::cout << "hold_queued_us " << probe_holdoff(false) << "\n";
+  std::cout << "hold_unsnub_us " << probe_holdoff(true) << "\n";
+}
+
+int main(int argc, char** argv) {
   std_setup();
   g_main = new HMain();
   torrent::ThreadMain::set_thread_base(g_main);
   torrent::RuntimeManager::initialize();
   g_main->init_thread();
+  if (argc > 1 && std::string(argv[1]) == "--params") { print_params(); return 0; }
   std::string line;
   while (std::getline(std::cin, line)) {
     try {
